@@ -133,7 +133,7 @@ func c10LockLeftBehind(run *report.Run, n int) {
 	})
 }
 
-// c10InterruptedWaiter: build A holds the workspace lock (a slow target), build B starts, waits
+// c10InterruptedWaiter: build A holds the workspace lock (a slow target), build B starts, waits (or, every other case, is started with --skip-workspace-lock and runs to its end meanwhile)
 // for the lock and is interrupted (SIGINT / SIGTERM) while waiting, then build C starts. B's
 // way out must leave A's lock alone: the lock file still names A while A runs, no command of C
 // starts before A's build is over, and A and C both end normally.
@@ -183,18 +183,30 @@ func c10InterruptedWaiter(run *report.Run, n int) {
 			time.Sleep(20 * time.Millisecond)
 		}
 		signalled := false
-		resB := env.M.Run([]string{"build", "//p:quick"}, grog.RunOpts{Build: "B", Timeout: 40 * time.Second, Env: []string{"GROG_VERIF_LOG=" + logB},
-			AfterStart: func(pid int) {
-				for w := 0; w < 150; w++ {
-					if saw(logB, "lock.wait") {
-						time.Sleep(time.Duration(r.Range(0, 120)) * time.Millisecond)
-						signalled = true
-						_ = syscall.Kill(pid, sig)
-						return
+		// every other case: B is not a waiter at all but a build started with --skip-workspace-lock
+		// that runs to its end while A holds the lock (it never took the lock, so it has none to give up)
+		skipB := i%2 == 1
+		cause := "interrupted-waiter"
+		var resB *grog.Result
+		if skipB {
+			cause = "skip-lock-build-finished-meanwhile"
+			resB = env.M.Run([]string{"build", "--skip-workspace-lock", "//p:quick"}, grog.RunOpts{Build: "B", Timeout: 40 * time.Second, Env: []string{"GROG_VERIF_LOG=" + logB}})
+			signalled = resB.Exit == 0
+			run.Count("skip_lock_builds_finished_while_the_lock_was_held", 1)
+		} else {
+			resB = env.M.Run([]string{"build", "//p:quick"}, grog.RunOpts{Build: "B", Timeout: 40 * time.Second, Env: []string{"GROG_VERIF_LOG=" + logB},
+				AfterStart: func(pid int) {
+					for w := 0; w < 150; w++ {
+						if saw(logB, "lock.wait") {
+							time.Sleep(time.Duration(r.Range(0, 120)) * time.Millisecond)
+							signalled = true
+							_ = syscall.Kill(pid, sig)
+							return
+						}
+						time.Sleep(20 * time.Millisecond)
 					}
-					time.Sleep(20 * time.Millisecond)
-				}
-			}})
+				}})
+		}
 		lockContent := ""
 		if b, err := os.ReadFile(lockFile); err == nil {
 			lockContent = strings.TrimSpace(string(b))
@@ -214,10 +226,10 @@ func c10InterruptedWaiter(run *report.Run, n int) {
 			run.Count("interrupted_waiter_cases_not_judged(timing)", 1)
 			return
 		}
-		run.Nontrivial(fmt.Sprintf("interrupted-waiter|%s|B-exit%d", sig, resB.Exit))
+		run.Nontrivial(fmt.Sprintf("%s|%s|B-exit%d", cause, sig, resB.Exit))
 		replay := map[string]any{"signal": sig.String(), "A": tail(resA.Stdout+resA.Stderr, 600), "B": tail(resB.Stdout+resB.Stderr, 600), "C": tail(resC.Stdout+resC.Stderr, 600)}
 		if lockContent != fmt.Sprint(pidA) {
-			keep = !run.Violation("holder-lock-file-gone cause=interrupted-waiter", fmt.Sprintf("after the waiting build was interrupted (%s) the lock file of the build that still holds the lock is %q (holder pid %d)", sig, lockContent, pidA), replay) || keep
+			keep = !run.Violation("holder-lock-file-gone cause="+cause, fmt.Sprintf("after the second build (%s; signal if interrupted: %s) the lock file of the build that still holds the lock is %q (holder pid %d)", cause, sig, lockContent, pidA), replay) || keep
 			return
 		}
 		// C must not have run its command while A was running: in the shared trace every line of A
@@ -237,11 +249,11 @@ func c10InterruptedWaiter(run *report.Run, n int) {
 			}
 		}
 		if firstC >= 0 && lastA > firstC {
-			keep = !run.Violation("two-builds-overlap cause=interrupted-waiter", "a command of the third build started before the build holding the lock had finished", replay) || keep
+			keep = !run.Violation("two-builds-overlap cause="+cause, "a command of the third build started before the build holding the lock had finished", replay) || keep
 			return
 		}
 		if resA.Exit != 0 || resC.Exit != 0 || resA.TimedOut || resC.TimedOut {
-			keep = !run.Violation("holder-or-newcomer-failed cause=interrupted-waiter", fmt.Sprintf("holder exit=%d, newcomer exit=%d", resA.Exit, resC.Exit), replay) || keep
+			keep = !run.Violation("holder-or-newcomer-failed cause="+cause, fmt.Sprintf("holder exit=%d, newcomer exit=%d", resA.Exit, resC.Exit), replay) || keep
 		}
 	})
 }
